@@ -72,6 +72,85 @@ func dencoStructural(c *Ctx, r2, r3, r4, r5 string) {
 		}
 	}
 	c.obF(r2, bld, "sorted-before-arranged", okSort, "build sorts the records it was given before arranging siblings (the double array does not depend on insertion order)", "no sort of srcs dominating arrange")
+	// every child's CHECK slot is claimed before ANY subtree is laid out: the claiming loop over the siblings claims on
+	// every iteration (parameter and wildcard children included) and is finished before the first recursive build — a
+	// slot claimed late can be taken by an earlier sibling's subtree, and then neither pattern is found
+	{
+		isClaim := isCallInstrTo("(*rt/middleware/denco.doubleArray).setCheck")
+		var recs []ssa.Instruction
+		for _, ci := range callsIn(bld, "(*rt/middleware/denco.doubleArray).build") {
+			if ci.Parent() == bld {
+				recs = append(recs, ci)
+			}
+		}
+		var claimLoop *sliceLoop
+		ls := sliceLoops(bld, nil)
+		for i := range ls {
+			hasClaim := false
+			for _, ci := range callsIn(bld, "(*rt/middleware/denco.doubleArray).setCheck") {
+				if ls[i].Header.Dominates(ci.Block()) && reachableFrom(ci.Block(), ls[i].Header) {
+					hasClaim = true
+				}
+			}
+			inLoopRec := false
+			for _, rc := range recs {
+				if ls[i].Header.Dominates(rc.Block()) && reachableFrom(rc.Block(), ls[i].Header) {
+					inLoopRec = true
+				}
+			}
+			if hasClaim && !inLoopRec {
+				claimLoop = &ls[i]
+			}
+		}
+		if claimLoop == nil || len(recs) == 0 {
+			c.obR(r2, short(bld.String()), "children-claimed-before-subtrees", c.P.InstrPos(bld.Blocks[0].Instrs[0]), false, "build claims the CHECK slots of all children in one loop before it recurses", "no claiming loop separate from the recursion found")
+		} else {
+			c.obI(r2, claimLoop.Test, "every-child-claimed-up-front", claimLoop.everyIteration(isClaim), "the claiming loop calls setCheck for every sibling — the ':' and '*' children too", "an iteration of the claiming loop can skip setCheck: that child's slot stays free while earlier siblings' subtrees are built")
+			okOrder := true
+			for _, rc := range recs {
+				if !claimLoop.Header.Dominates(rc.Block()) {
+					okOrder = false
+				}
+			}
+			c.obI(r2, claimLoop.Test, "children-claimed-before-subtrees", okOrder, "no subtree is built before the claiming loop has run", "a recursive build is reachable without the claiming loop")
+		}
+		// the record a parameter / wildcard case strips (name recorded, key consumed) is one of the CASE'S OWN records —
+		// an element of the sibling's sub-slice srcs[start:end], never of the whole node's list
+		nStrip := 0
+		for _, in := range instrs(bld) {
+			st, ok := in.(*ssa.Store)
+			if !ok || in.Parent() != bld {
+				continue
+			}
+			fa, ok := st.Addr.(*ssa.FieldAddr)
+			if !ok {
+				continue
+			}
+			n, stt := structOf(fa.X.Type())
+			if n == nil || typeFullName(n) != "rt/middleware/denco.record" {
+				continue
+			}
+			fld := stt.Field(fa.Field).Name()
+			if fld != "Key" && fld != "paramNames" {
+				continue
+			}
+			nStrip++
+			whole := false
+			for _, o := range originsOf(fa.X) {
+				if ad, isLd := derefLoad(o.V); isLd {
+					if ia, isIA := ad.(*ssa.IndexAddr); isIA {
+						if okW, _ := allOrigins(ia.X, oIsValue(bld.Params[1])); okW {
+							if _, isSl := ia.X.(*ssa.Slice); !isSl {
+								whole = true
+							}
+						}
+					}
+				}
+			}
+			c.obI(r2, st, "strips-a-record-of-its-own-group", !whole, "the record whose key is consumed in a parameter/wildcard case belongs to that child's group of records", "record."+fld+" is written on an element of the node's WHOLE record list: with a sibling sorting before the parameter child, another pattern's record is stripped")
+		}
+		c.obRF(r2, bld, "strips-parameter-records", nStrip >= 2, "build consumes the parameter part of its records' keys", fmt.Sprintf("%d stores", nStrip))
+	}
 	fb := p.Fn("(*rt/middleware/denco.doubleArray).findBase")
 	used := fb.Params[3]
 	isUsed := func(v ssa.Value) bool {
@@ -341,6 +420,92 @@ func dencoStructural(c *Ctx, r2, r3, r4, r5 string) {
 		}
 	}
 	c.obRF(r5, lk, "param-kinds", len(single) == 1 && len(wild) == 1 && len(anyp) == 1, "lookup distinguishes single and wildcard parameter nodes", fmt.Sprintf("%d/%d/%d", len(single), len(wild), len(anyp)))
+	// every position of the walk is a candidate when the node reached carries a parameter edge: the any-parameter flag is
+	// asked at every byte of the walk (whatever the byte before it was — build creates parameter nodes wherever ':' occurs
+	// in a key, also after literal text inside a segment), and a set flag always registers the position
+	if len(anyp) == 1 {
+		k := anyp[0]
+		var header *ssa.BasicBlock
+		for _, b := range k.Parent().Blocks {
+			if b.Dominates(k.Block()) && b != k.Block() && reachableFrom(k.Block(), b) {
+				if _, isIf := lastInstr(b).(*ssa.If); isIf && (header == nil || b.Dominates(header)) {
+					header = b // (the outermost: the loop's own test)
+				}
+			}
+		}
+		if header == nil || len(header.Succs) != 2 || len(header.Succs[0].Instrs) == 0 {
+			c.obRI(r5, k, "flag-asked-at-every-position", false, "the walk loop around the any-parameter test", "loop not recognised")
+		} else {
+			first := header.Succs[0].Instrs[0]
+			skipped := first != ssa.Instruction(k) && pathExists(k.Parent(), first, lastInstr(header), nil, isOneOf(k))
+			c.obI(r5, k, "flag-asked-at-every-position", !skipped, "every iteration of the walk asks the node's any-parameter flag: no position is ruled out as a parameter start by the bytes around it", "an iteration of the walk can go round without asking IsAnyParam (a parameter that follows literal text inside a segment is never tried)")
+			var regs []ssa.Instruction
+			for _, ci := range callsIn(lk, "builtin append") {
+				if call, ok := ci.(*ssa.Call); ok && typeStr(call.Type()) == "[]uint64" && pathExists(k.Parent(), k, ci, nil, nil) {
+					regs = append(regs, ci)
+				}
+			}
+			// the backtracking stack starts EMPTY: every entry on it is a position registered by this walk (an entry that
+			// was never registered decodes to offset 0 / cell 0 and is tried like a real candidate)
+			for _, rg := range regs {
+				seenB := map[ssa.Value]bool{}
+				var bases []ssa.Value
+				var walkB func(v ssa.Value)
+				walkB = func(v ssa.Value) {
+					if seenB[v] {
+						return
+					}
+					seenB[v] = true
+					switch x := v.(type) {
+					case *ssa.Phi:
+						for _, e := range x.Edges {
+							walkB(e)
+						}
+					case *ssa.Call:
+						if calleeName(&x.Call) == "builtin append" {
+							walkB(x.Call.Args[0])
+							return
+						}
+						bases = append(bases, v)
+					default:
+						bases = append(bases, v)
+					}
+				}
+				walkB(rg.(*ssa.Call).Call.Args[0])
+				okEmpty, whyB := len(bases) > 0, ""
+				for _, bse := range bases {
+					switch x := bse.(type) {
+					case *ssa.Const:
+						if !isNilConst(x) {
+							okEmpty, whyB = false, describe(bse)
+						}
+					case *ssa.MakeSlice:
+						if n, isK := constInt(x.Len); !isK || n != 0 {
+							okEmpty, whyB = false, "make with a non-zero length"
+						}
+					case *ssa.Slice:
+						_, isAl := x.X.(*ssa.Alloc)
+						n, isK := int64(-1), false
+						if x.High != nil {
+							n, isK = constInt(x.High)
+						}
+						if !isAl || !isK || n != 0 || x.Low != nil {
+							okEmpty, whyB = false, "the stack is created with "+describe(bse)+" (length not 0)"
+						}
+					default:
+						okEmpty, whyB = false, describe(bse)
+					}
+				}
+				c.obI(r5, rg, "backtracking-stack-starts-empty", okEmpty, "the stack of candidate positions is created empty (nil, or make(…, 0, n)): only registered positions are ever tried", whyB)
+			}
+			if kv := k.Value(); kv != nil && len(regs) > 0 {
+				lost := pathExists(k.Parent(), k, lastInstr(header), factBool(vIs(kv), false), isOneOf(regs...))
+				c.obI(r5, k, "set-flag-registers-the-position", !lost, "whenever the flag is set the position is pushed on the backtracking stack", "the walk can go on from a node with a parameter edge without registering the candidate")
+			} else {
+				c.obRI(r5, k, "set-flag-registers-the-position", false, "whenever the flag is set the position is pushed on the backtracking stack", "no registration found")
+			}
+		}
+	}
 	if len(single) == 1 && len(wild) == 1 {
 		// natural loop containing the IsSingleParam test: every path from the test back to the loop header passes the wildcard test
 		sb := single[0].Block()
